@@ -1212,6 +1212,9 @@ class RTCSctpTransport(AsyncIOEventEmitter):
         """
         if uint32_gt(self._last_sacked_tsn, chunk.cumulative_tsn):
             return
+        if uint32_gte(chunk.cumulative_tsn, self._local_tsn):
+            # acknowledges a TSN which was never sent
+            return
 
         received_time = time.time()
         self._last_sacked_tsn = chunk.cumulative_tsn
@@ -1235,12 +1238,17 @@ class RTCSctpTransport(AsyncIOEventEmitter):
 
         # handle gap blocks
         loss = False
-        if chunk.gaps:
-            seen = set()
-            for gap in chunk.gaps:
-                for pos in range(gap[0], gap[1] + 1):
-                    highest_seen_tsn = (chunk.cumulative_tsn + pos) % SCTP_TSN_MODULO
-                    seen.add(highest_seen_tsn)
+        # only gap blocks which cover outstanding chunks are meaningful
+        if self._sent_queue:
+            max_pos = (self._sent_queue[-1].tsn - chunk.cumulative_tsn) % SCTP_TSN_MODULO
+        else:
+            max_pos = 0
+        seen = set()
+        for gap in chunk.gaps:
+            for pos in range(gap[0], min(gap[1], max_pos) + 1):
+                highest_seen_tsn = (chunk.cumulative_tsn + pos) % SCTP_TSN_MODULO
+                seen.add(highest_seen_tsn)
+        if seen:
 
             # determined Highest TSN Newly Acked (HTNA)
             highest_newly_acked = chunk.cumulative_tsn
